@@ -133,8 +133,8 @@ func replayViolation(e *Engine, j *Job, v *Violation) {
 	}
 	var transcript strings.Builder
 	for r := 0; r < runs && !v.Reproduced; r++ {
-		ctx, cancel := context.WithTimeout(context.Background(), 40*time.Second)
-		cmd := exec.CommandContext(ctx, b.bin, "-test.run", "^TestVerifReplay$", "-test.timeout", "30s")
+		ctx, cancel := context.WithTimeout(context.Background(), 15*time.Second)
+		cmd := exec.CommandContext(ctx, b.bin, "-test.run", "^TestVerifReplay$", "-test.timeout", "300s")
 		cmd.Env = append(os.Environ(), "VERIF_VECTOR="+vecPath)
 		cmd.Dir = dir
 		out, _ := cmd.CombinedOutput()
